@@ -4,6 +4,7 @@ mod arena;
 mod builder;
 mod code;
 mod irtext;
+mod offsets;
 mod visit;
 mod decode;
 mod gen;
@@ -48,6 +49,7 @@ fn main() {
         "visit-deep" => visit::deep(args[2].parse().unwrap()),
         "builder" => builder::main(seed, &tier, only.as_deref()),
         "code" => code::main(seed, &tier, only.as_deref()),
+        "offsets" => offsets::main(seed, &tier, only.as_deref()),
         "opsxtest" => {
             let u = opsx::universe(1);
             println!("supported plain ops {} typed {} unsupported {} cases {} untypable {:?}", u.supported_plain, u.typed, u.unsupported, u.cases.len(), u.untypable);
